@@ -73,6 +73,10 @@ def write_package(case):
                 attrs.append("    DEFAULT = True")
             if c.get("default_false"):
                 attrs.append("    DEFAULT = False")
+            if c.get("falsy") == "len":
+                attrs.append("    def __len__(self):\n        return 0  # e.g. a queue of steps that is filled in on_enable")
+            elif c.get("falsy") == "bool":
+                attrs.append("    def __bool__(self):\n        return False")
             if not attrs:
                 attrs.append("    pass")
             src.append(CLASS_SRC.format(cls=f"Cls_{mi}_{ci}", cid=f"{mi}_{ci}", attrs="\n".join(attrs), fail=bool(c.get("ctor_fail"))))
@@ -105,6 +109,8 @@ def decode(code):
             c["default"] = def_c >= 6
             c["default_false"] = def_c == 5
             c["ctor_fail"] = ctor_c == 11
+            if ctor_c in (9, 10):
+                c["falsy"] = ["len", "bool"][ctor_c - 9]  # a mode object that is falsy is still a mode object
             m["classes"].append(c)
         case["modules"].append(m)
     if case["pkg"] == "missing":
